@@ -578,6 +578,8 @@ def _run_torch(run, spec):
     rng = np.random.default_rng(spec["seed"])
     n, width = spec["n"], spec["width"]
     names = ["x", "class", "y", "z"][:width]
+    # every TorchWrapper of the process has its own layout: the same item name sits at different tuple positions in different wrappers
+    names = [names[j] for j in rng.permutation(width)]
     tmode = " ".join(names)
     base = _TupleDS(n, width)
     ok, tw = call_real(run, lambda: TorchWrapper(dataset=base, mode=tmode), crash_key="ctor-crash", what="TorchWrapper")
